@@ -105,6 +105,12 @@ func docsValues(ds []orda.Document) []interface{} {
 
 // local performs one local call on p through a (the datatype itself, or its in-transaction view).
 func (r *run) local(p *replica, a api, e Ev, tx *txState) {
+	if tx != nil {
+		// reads during the body go through the transaction's view
+		saved := p.api
+		p.api = a
+		defer func() { p.api = saved }()
+	}
 	r.refresh(p)
 	c := r.translate(p, a, e, tx)
 	if c == nil {
